@@ -341,11 +341,12 @@ func (s *WeshOrbitDB) loadHeads(ctx context.Context, store iface.Store, heads []
 	}
 	defer sub.Close()
 
-	// check and generate missing entries if needed
-	headsEntries := make([]ipfslog.Entry, len(heads))
-	for i, h := range heads {
+	// check and generate missing entries if needed (heads the log already
+	// holds have nothing to load)
+	headsEntries := make([]ipfslog.Entry, 0, len(heads))
+	for _, h := range heads {
 		if _, ok := store.OpLog().Get(h); !ok {
-			headsEntries[i] = &entry.Entry{Hash: h}
+			headsEntries = append(headsEntries, &entry.Entry{Hash: h})
 		}
 	}
 
@@ -355,7 +356,7 @@ func (s *WeshOrbitDB) loadHeads(ctx context.Context, store iface.Store, heads []
 
 	store.Replicator().Load(ctx, headsEntries)
 
-	for found := 0; found < len(heads); {
+	for found := 0; found < len(headsEntries); {
 		// wait for load to finish
 		select {
 		case e := <-sub.Out():
